@@ -209,6 +209,7 @@ PROPS = {
         "thorough_runs": {"C11": 600000},
         "thorough_wall": 900,
         "hang_is_violation": True,
+        "watchdog_s": 25,
         "rule": "each run = role x buffer x before/after logon, then 1-12 hostile byte strings: grammar mutations with recomputed BodyLength/CheckSum (group counts last / non-numeric / "
                 "negative / larger or smaller than the entries, entries without first field, nested counts, prefix/suffix tags, empty and duplicated fields, fields without '=', 60 KB values), "
                 "damaged framing fields, fixed degenerate strings (empty, '8', no SOH), random bytes, randomly edited valid messages; each delivered through the real stream (segmented), at "
